@@ -181,7 +181,8 @@ pub fn gen_const_tree(tape: &mut Tape, ty: Ty, depth: usize, refs: &[(String, Ty
         2 if !refs.is_empty() => {
             let (n, _) = tape.pick(refs).clone();
             // reference with the wanted read type; the inherent type is fixed up later
-            Expr::Var(VarUse { var: VarRef::Local { name: n, ty }, sigil: None })
+            // (sometimes with a redundant sigil: `%K` where K is a float const, `$K` where it is an int const)
+            Expr::Var(VarUse { var: VarRef::Local { name: n, ty }, sigil: if tape.chance(1, 3) { Some(ty) } else { None } })
         }
         3 | 4 | 5 => {
             let op = *tape.pick(&["+", "-", "*", "/", "%"]);
